@@ -31,6 +31,7 @@ SEL_BOX = "dropped_by_strict_box"
 WITNESS_F1 = core.CORPUS / "C05" / "F1_short_edge.json"
 WITNESS_BOX = core.CORPUS / "C05" / "F23_border_animal.json"
 SIGMAS = [F(1, 2), F(1), F(3, 2), F(5, 2), F(5)]
+SIGMAS_EXTREME = [F(1, 16), F(1, 8), F(40), F(4096)]     # weights underflow to 0 / stay at 1: never NaN
 
 
 # ---------------------------------------------------------------- generation
@@ -79,6 +80,18 @@ def gen_animal(rng, H, W, s, n_nodes, p_nan):
             return (gen_coord(rng, W, s),
                     F(rng.randrange(16 * lasty, 16 * (H - 1) + 1), 16) if rng.random() < 0.5 else F(lasty))
         inst = [bnode() if visible(p) else p for p in inst]
+    elif kind < 0.28:                  # every node in the one-pixel strip just beyond a border line:
+        def snode():                   # x in (W-1, W) or (-1, 0), or y in (H-1, H) or (-1, 0)
+            off = F(rng.randrange(1, 16), 16)
+            k = rng.randrange(4)
+            if k == 0:
+                return (W - 1 + off, gen_coord(rng, H, s))
+            if k == 1:
+                return (gen_coord(rng, W, s), H - 1 + off)
+            if k == 2:
+                return (-off, gen_coord(rng, H, s))
+            return (gen_coord(rng, W, s), -off)
+        inst = [snode() if visible(p) else p for p in inst]
     # coincident nodes / sub-pixel edges
     for k in range(1, n_nodes):
         r = rng.random()
@@ -135,17 +148,20 @@ def gen_case(rng, thorough):
     kind = rng.choice(["gen", "gen", "gen", "gen", "pipe", "pipe", "multi", "pafs", "edgemaps", "dist", "edgepts"])
     s = rng.choice([1, 1, 2, 2, 4, 8])
     H, W = gen_dims(rng, s, thorough)
-    sigma = rng.choice(SIGMAS)
+    sigma = rng.choice(SIGMAS_EXTREME) if rng.random() < 0.08 else rng.choice(SIGMAS)
     p_nan = rng.choice([0, 0, 0, 0.15, 0.15, 0.4, 1.0])
     n_nodes = rng.choice([1, 2, 2, 3, 3, 4])
     n_inst = rng.choice([0, 1, 1, 2, 2, 3])
     edges = gen_edges(rng, n_nodes)
     insts = [gen_animal(rng, H, W, s, n_nodes, p_nan) for _ in range(n_inst)]
-    if n_inst >= 2 and rng.random() < 0.25:
+    if n_inst >= 2 and rng.random() < 0.3:
         # an animal without any usable edge point listed BEFORE a real one (NaN "padding" that is not at
         # the end): either wholly missing, or missing exactly on the nodes the edge list uses
         j = rng.randrange(n_inst - 1)
         used = {a for e in edges for a in e}
+        if len(used) == n_nodes and n_nodes >= 3 and edges and rng.random() < 0.7:
+            edges = [edges[0]]                     # a skeleton node that is on no edge
+            used = set(edges[0])
         if rng.random() < 0.5 or not used:
             insts[j] = [(None, None)] * n_nodes
         else:
@@ -156,8 +172,12 @@ def gen_case(rng, thorough):
             insts[-1] = [(F(rng.randrange(0, 16 * W), 16), F(rng.randrange(0, 16 * H), 16)) for _ in range(n_nodes)]
     c = {"kind": kind, "H": H, "W": W, "s": s, "sigma": sigma, "edges": edges, "insts": insts,
          "n_nodes": n_nodes, "flat": rng.random() < 0.7}
+    if rng.random() < 0.12:
+        c["dtype"] = "float64"                        # keypoints as float64 (the output stays float32)
+    if kind in ("gen", "pipe", "edgepts") and rng.random() < 0.2:
+        c["edge_dtype"] = rng.choice(["int64", "int32"])   # edge indices as an integer tensor
     if kind in ("gen", "pipe"):
-        c["extra_sample"] = rng.random() < 0.1        # a second sample that must be ignored
+        c["extra_sample"] = rng.random() < 0.15       # a second sample that must be ignored
     if kind == "pipe" and rng.random() < 0.4:        # a second example with its own image size
         H2, W2 = gen_dims(rng, s, thorough)
         c["ex2"] = {"H": H2, "W": W2,
@@ -202,7 +222,11 @@ def samples_of(c, insts):
     return smp
 
 
-def term(c, fixed_len, fixed_box):
+def term(c, fixed_len, fixed_box, fixed_box_pipe=None):
+    """fixed_box: the in-image filter of generate_pafs; fixed_box_pipe: the one of the DataPipe
+    (two copies of the same lines in the source, detected separately)."""
+    if fixed_box_pipe is None:
+        fixed_box_pipe = fixed_box
     k = c["kind"]
     sg = core.cq(c["sigma"])
     xv, yv = core.clist(grid(c["W"], c["s"]), core.cq), core.clist(grid(c["H"], c["s"]), core.cq)
@@ -230,32 +254,32 @@ def term(c, fixed_len, fixed_box):
         if "ex2" in c:
             exs.append((c["ex2"]["H"], c["ex2"]["W"], [c["ex2"]["insts"]]))
         ex_t = core.clist(exs, lambda e: f"({e[0]}%nat, {e[1]}%nat, {core.clist(e[2], cinsts)})")
-        return f"CPipe {fl} {fb} {core.cbool(c['flat'])} {ex_t} {sg} {c['s']}%nat {cedges(c['edges'])}"
+        return f"CPipe {fl} {core.cbool(fixed_box_pipe)} {core.cbool(c['flat'])} {ex_t} {sg} {c['s']}%nat {cedges(c['edges'])}"
     raise ValueError(k)
 
 
 # ---------------------------------------------------------------- implementation
-def t_kps(kps, torch):
+def t_kps(kps, torch, dtype="float32"):
     nan = float("nan")
     return torch.tensor([[nan if v is None else float(v) for v in p] for p in kps],
-                        dtype=torch.float32).reshape(len(kps), 2)
+                        dtype=getattr(torch, dtype)).reshape(len(kps), 2)
 
 
-def t_insts(samples, n_nodes, torch):
+def t_insts(samples, n_nodes, torch, dtype="float32"):
     nan = float("nan")
     n_inst = len(samples[0])
     flat = [[[[nan if v is None else float(v) for v in p] for p in inst] for inst in smp] for smp in samples]
-    return torch.tensor(flat, dtype=torch.float32).reshape(len(samples), n_inst, n_nodes, 2)
+    return torch.tensor(flat, dtype=getattr(torch, dtype)).reshape(len(samples), n_inst, n_nodes, 2)
 
 
-def t_edges(edges, torch):
-    # the repo's callers pass torch.Tensor(edge_inds): a float tensor
-    return torch.tensor(edges, dtype=torch.float32).reshape(len(edges), 2)
+def t_edges(edges, torch, dtype="float32"):
+    # the repo's callers pass torch.Tensor(edge_inds): a float tensor (default here)
+    return torch.tensor(edges, dtype=getattr(torch, dtype)).reshape(len(edges), 2)
 
 
-def impl_generate(em, torch, samples, n_nodes, H, W, sigma, s, edges, flat):
-    return em.generate_pafs(t_insts(samples, n_nodes, torch), (H, W), float(sigma), s,
-                            t_edges(edges, torch), flat)
+def impl_generate(em, torch, samples, n_nodes, H, W, sigma, s, edges, flat, dtype="float32", edge_dtype="float32"):
+    return em.generate_pafs(t_insts(samples, n_nodes, torch, dtype), (H, W), float(sigma), s,
+                            t_edges(edges, torch, edge_dtype), flat)
 
 
 def run_impl(c, mods):
@@ -266,29 +290,34 @@ def run_impl(c, mods):
     yv = torch.tensor([float(v) for v in grid(c["H"], c["s"])], dtype=torch.float32)
     srcs, dsts = edge_points(c["insts"], c["edges"])
     E = len(c["edges"])
+    dt, edt = c.get("dtype", "float32"), c.get("edge_dtype", "float32")
     if k == "dist":
-        pts = torch.tensor([[[float(p[0]), float(p[1])] for p in r] for r in c["pts"]], dtype=torch.float32)
-        return em.distance_to_edge(pts, t_kps(srcs[0], torch), t_kps(dsts[0], torch))
+        pts = torch.tensor([[[float(p[0]), float(p[1])] for p in r] for r in c["pts"]], dtype=getattr(torch, dt))
+        return em.distance_to_edge(pts, t_kps(srcs[0], torch, dt), t_kps(dsts[0], torch, dt))
     if k == "edgemaps":
-        return em.make_edge_maps(xv, yv, t_kps(srcs[0], torch), t_kps(dsts[0], torch), sg)
+        return em.make_edge_maps(xv, yv, t_kps(srcs[0], torch, dt), t_kps(dsts[0], torch, dt), sg)
     if k == "pafs":
-        return em.make_pafs(xv, yv, t_kps(srcs[0], torch), t_kps(dsts[0], torch), sg)
+        return em.make_pafs(xv, yv, t_kps(srcs[0], torch, dt), t_kps(dsts[0], torch, dt), sg)
     if k == "multi":
-        ts = torch.stack([t_kps(a, torch) for a in srcs]) if srcs else torch.zeros((0, E, 2))
-        td = torch.stack([t_kps(a, torch) for a in dsts]) if dsts else torch.zeros((0, E, 2))
-        return em.make_multi_pafs(xv, yv, ts, td, sg)
+        return impl_multi(em, torch, xv, yv, srcs, dsts, E, sg, dt)
     if k == "edgepts":
-        a, b = em.get_edge_points(t_insts([c["insts"]], c["n_nodes"], torch)[0], t_edges(c["edges"], torch))
+        a, b = em.get_edge_points(t_insts([c["insts"]], c["n_nodes"], torch, dt)[0], t_edges(c["edges"], torch, edt))
         return (a, b)
     if k == "gen":
         return impl_generate(em, torch, samples_of(c, c["insts"]), c["n_nodes"], c["H"], c["W"], c["sigma"],
-                             c["s"], c["edges"], c["flat"])
+                             c["s"], c["edges"], c["flat"], dt, edt)
     if k == "pipe":
         exs = [(c["H"], c["W"], samples_of(c, c["insts"]), 1)]
         if "ex2" in c:
             exs.append((c["ex2"]["H"], c["ex2"]["W"], [c["ex2"]["insts"]], 3))
-        return impl_pipe(em, torch, exs, c["n_nodes"], c["sigma"], c["s"], c["edges"], c["flat"])
+        return impl_pipe(em, torch, exs, c["n_nodes"], c["sigma"], c["s"], c["edges"], c["flat"], dt, edt)
     raise ValueError(k)
+
+
+def impl_multi(em, torch, xv, yv, srcs, dsts, E, sg, dt="float32"):
+    ts = torch.stack([t_kps(a, torch, dt) for a in srcs]) if srcs else torch.zeros((0, E, 2))
+    td = torch.stack([t_kps(a, torch, dt) for a in dsts]) if dsts else torch.zeros((0, E, 2))
+    return em.make_multi_pafs(xv, yv, ts, td, sg)
 
 
 # ---------------------------------------------------------------- model vs implementation
@@ -391,17 +420,42 @@ def strictly_in_code_box(inst, H, W, s):
     return any(visible(p) and 0 < p[0] < lx and 0 < p[1] < ly for p in inst)
 
 
-def oracle_single(inst, out, H, W, s, edges, sigma):
-    """The per-animal clauses on the (E,2,h,w) field of ONE animal.
+def monotone_in_distance(cells, what):
+    """cells: (exact squared distance, weight, index).  Weight 1 at distance 0, equal at equal
+    distances, non-increasing along increasing distance.  Returns a reason or None."""
+    for d2, wt, ij in cells:
+        if d2 == 0 and wt < 1 - (ATOL + RTOL):
+            return f"{what} cell {ij} lies on the segment but its weight is {wt}, not 1"
+    cells = sorted(cells, key=lambda t: t[0])
+    run_min, k = math.inf, 0
+    while k < len(cells):
+        k2 = k
+        while k2 < len(cells) and cells[k2][0] == cells[k][0]:
+            k2 += 1
+        grp = [t[1] for t in cells[k:k2]]
+        tol = ATOL + RTOL * max(grp)
+        if max(grp) - min(grp) > 2 * tol:
+            return f"{what}: cells at equal distance {float(cells[k][0])} have weights {min(grp)}..{max(grp)}"
+        if max(grp) > run_min + 2 * tol:
+            return (f"{what}: weight {max(grp)} at squared distance {float(cells[k][0])} exceeds the weight "
+                    f"{run_min} of a nearer cell (not non-increasing with distance)")
+        run_min = min(run_min, min(grp))
+        k = k2
+    return None
+
+
+def oracle_single(inst, out, H, W, s, edges, sigma, filtered=True):
+    """The per-animal clauses on the (E,2,h,w) field of ONE animal.  filtered=False: the field comes
+    from make_pafs / make_multi_pafs, which have no in-image filter (every animal counts).
     Returns (reason or None, selector or None)."""
     h, w = -(-H // s), -(-W // s)
-    cls = classify(inst, H, W)
+    cls = classify(inst, H, W) if filtered else "inside"
     allzero = all(v == 0.0 for e in out for ch in e for row in ch for v in row)
     if cls == "outside":
         return (None, None) if allzero else ("an animal wholly outside the image contributes a non-zero field", None)
     if cls == "margin" and allzero:
         return None, None
-    box_sel = SEL_BOX if (cls == "inside" and allzero and not strictly_in_code_box(inst, H, W, s)) else None
+    box_sel = SEL_BOX if (filtered and cls == "inside" and allzero and not strictly_in_code_box(inst, H, W, s)) else None
     for e, (a, b) in enumerate(edges):
         src, dst = inst[a], inst[b]
         fx, fy = out[e]
@@ -458,19 +512,19 @@ def oracle_single(inst, out, H, W, s, edges, sigma):
     return None, None
 
 
-def impl_pipe(em, torch, examples, n_nodes, sigma, s, edges, flat):
+def impl_pipe(em, torch, examples, n_nodes, sigma, s, edges, flat, dtype="float32", edge_dtype="float32"):
     """examples: list of (H, W, samples, channels)."""
-    exs = [{"image": torch.zeros((1, ch, H, W)), "instances": t_insts(smp, n_nodes, torch)}
+    exs = [{"image": torch.zeros((1, ch, H, W)), "instances": t_insts(smp, n_nodes, torch, dtype)}
            for H, W, smp, ch in examples]
     dp = em.PartAffinityFieldsGenerator(exs, sigma=float(sigma), output_stride=s,
-                                        edge_inds=t_edges(edges, torch), flatten_channels=flat)
+                                        edge_inds=t_edges(edges, torch, edge_dtype), flatten_channels=flat)
     outs = list(dp)
     if len(outs) != len(exs):
         raise AssertionError(f"DataPipe yielded {len(outs)} examples for {len(exs)}")
     return [o["part_affinity_fields"] for o in outs]
 
 
-def oracle_field(mods, out, insts, n_nodes, H, W, s, sigma, edges, flat, via_pipe):
+def oracle_field(mods, out, insts, n_nodes, H, W, s, sigma, edges, flat, via_pipe, dts=("float32", "float32")):
     """All clauses for one output of generate_pafs / the DataPipe.  Returns a list of
     (reason, selector) failures (empty = the property holds on this case).  The field of
     each animal alone is obtained through the same entry point as `out`."""
@@ -489,9 +543,9 @@ def oracle_field(mods, out, insts, n_nodes, H, W, s, sigma, edges, flat, via_pip
     total = torch.zeros((E, 2, h, w), dtype=torch.float64)
     for a, inst in enumerate(insts):
         if via_pipe:
-            one = impl_pipe(em, torch, [(H, W, [[inst]], 1)], n_nodes, sigma, s, edges, False)[0]
+            one = impl_pipe(em, torch, [(H, W, [[inst]], 1)], n_nodes, sigma, s, edges, False, *dts)[0]
         else:
-            one = impl_generate(em, torch, [[inst]], n_nodes, H, W, sigma, s, edges, False)
+            one = impl_generate(em, torch, [[inst]], n_nodes, H, W, sigma, s, edges, False, *dts)
         if tuple(one.shape) != (E, 2, h, w) or not bool(torch.isfinite(one).all()):
             fails.append((f"animal {a} alone: bad shape or non-finite values", None))
             continue
@@ -507,7 +561,7 @@ def oracle_field(mods, out, insts, n_nodes, H, W, s, sigma, edges, flat, via_pip
                       f"{float(o4.flatten()[idx])} vs sum of the single-animal fields {float(total.flatten()[idx])}",
                       None))
     if via_pipe:                          # the two entry points generate the same field
-        ref = impl_generate(em, torch, [insts], n_nodes, H, W, sigma, s, edges, flat)
+        ref = impl_generate(em, torch, [insts], n_nodes, H, W, sigma, s, edges, flat, *dts)
         if tuple(ref.shape) != tuple(out.shape) or not bool(
                 ((ref.double() - out.double()).abs() <= 2 * ATOL + RTOL * ref.double().abs()).all()):
             fails.append(("PartAffinityFieldsGenerator and generate_pafs generate different fields for the "
@@ -515,16 +569,132 @@ def oracle_field(mods, out, insts, n_nodes, H, W, s, sigma, edges, flat, via_pip
     return fails
 
 
+def oracle_multi(c, out, mods):
+    """make_multi_pafs (no filter): shape, never NaN, the field is the sum of the fields of each animal
+    alone (whatever the order and the NaN pattern), and the per-animal clauses."""
+    torch, em = mods
+    H, W, s, edges = c["H"], c["W"], c["s"], c["edges"]
+    h, w, E = -(-H // s), -(-W // s), len(edges)
+    if tuple(out.shape) != (E, 2, h, w):
+        return [(f"make_multi_pafs: shape {tuple(out.shape)} != {(E, 2, h, w)}", None)]
+    if not bool(torch.isfinite(out).all()):
+        return [("make_multi_pafs: output contains NaN or inf", None)]
+    xv = torch.tensor([float(v) for v in grid(W, s)], dtype=torch.float32)
+    yv = torch.tensor([float(v) for v in grid(H, s)], dtype=torch.float32)
+    fails, total = [], torch.zeros((E, 2, h, w), dtype=torch.float64)
+    for a, inst in enumerate(c["insts"]):
+        srcs, dsts = edge_points([inst], edges)
+        one = impl_multi(em, torch, xv, yv, srcs, dsts, E, float(c["sigma"]), c.get("dtype", "float32"))
+        if tuple(one.shape) != (E, 2, h, w) or not bool(torch.isfinite(one).all()):
+            fails.append((f"make_multi_pafs, animal {a} alone: bad shape or non-finite values", None))
+            continue
+        total += one.double()
+        bad, sel = oracle_single(inst, one.tolist(), H, W, s, edges, c["sigma"], filtered=False)
+        if bad:
+            fails.append((f"make_multi_pafs, animal {a}: {bad}", sel))
+    diff = (out.double() - total).abs()
+    tol = 2 * ATOL + RTOL * total.abs()
+    if bool((diff > tol).any()):
+        idx = int((diff - tol).flatten().argmax())
+        fails.append((f"make_multi_pafs: fields of several animals do not add (flat index {idx}): "
+                      f"{float(out.flatten()[idx])} vs sum of the single-animal fields {float(total.flatten()[idx])}",
+                      None))
+    return fails
+
+
+def degenerate(src, dst):
+    return not (visible(src) and visible(dst)) or src == dst
+
+
+def oracle_pafs(c, out, mods):
+    """make_pafs (one animal, before NaN -> 0): an edge's channels are NaN exactly when the edge has a
+    missing endpoint or zero length; with those set to 0 the per-animal clauses hold."""
+    torch, _ = mods
+    H, W, s, edges, inst = c["H"], c["W"], c["s"], c["edges"], c["insts"][0]
+    h, w, E = -(-H // s), -(-W // s), len(edges)
+    if tuple(out.shape) != (E, 2, h, w):
+        return [(f"make_pafs: shape {tuple(out.shape)} != {(E, 2, h, w)}", None)]
+    for e, (a, b) in enumerate(edges):
+        if not degenerate(inst[a], inst[b]) and not bool(torch.isfinite(out[e]).all()):
+            return [(f"make_pafs: edge {e} has visible, distinct endpoints but its field contains NaN/inf", None)]
+    bad, sel = oracle_single(inst, torch.nan_to_num(out, nan=0.0).tolist(), H, W, s, edges, c["sigma"],
+                             filtered=False)
+    return [(f"make_pafs: {bad}", sel)] if bad else []
+
+
+def point_dist2(src, x, y):
+    return (x - src[0]) ** 2 + (y - src[1]) ** 2
+
+
+def oracle_edge_maps(c, out, mods):
+    """make_edge_maps (h, w, E): for an edge with both endpoints visible - coincident or not - the map is
+    finite, in [0,1], 1 on the segment (the point, for a zero-length edge) and non-increasing in the exact
+    distance to it."""
+    H, W, s, edges, inst = c["H"], c["W"], c["s"], c["edges"], c["insts"][0]
+    h, w, E = -(-H // s), -(-W // s), len(edges)
+    if tuple(out.shape) != (h, w, E):
+        return [(f"make_edge_maps: shape {tuple(out.shape)} != {(h, w, E)}", None)]
+    o = out.tolist()
+    for e, (a, b) in enumerate(edges):
+        src, dst = inst[a], inst[b]
+        if not (visible(src) and visible(dst)):
+            continue
+        l2 = (dst[0] - src[0]) ** 2 + (dst[1] - src[1]) ** 2
+        sel = SEL_F1 if 0 < l2 < 1 else None
+        cells = []
+        for i in range(h):
+            for j in range(w):
+                v = o[i][j][e]
+                if not (isinstance(v, float) and math.isfinite(v)) or v < -ATOL or v > 1 + ATOL + RTOL:
+                    return [(f"make_edge_maps: edge {e} (visible endpoints) cell {(i, j)}: value {v} is not a "
+                             f"weight in [0,1]", None)]
+                d2 = point_dist2(src, F(j * s), F(i * s)) if l2 == 0 else seg_dist2(src, dst, F(j * s), F(i * s))
+                cells.append((d2, v, (i, j)))
+        bad = monotone_in_distance(cells, f"make_edge_maps: edge {e}")
+        if bad:
+            return [(bad, sel)]
+    return []
+
+
+def oracle_dist(c, out, mods):
+    """distance_to_edge at arbitrary points: for visible endpoints (coincident or not) the result is the
+    squared distance to the closed segment (never NaN)."""
+    edges, inst = c["edges"], c["insts"][0]
+    o = out.tolist()
+    for e, (a, b) in enumerate(edges):
+        src, dst = inst[a], inst[b]
+        if not (visible(src) and visible(dst)):
+            continue
+        l2 = (dst[0] - src[0]) ** 2 + (dst[1] - src[1]) ** 2
+        for i, row in enumerate(c["pts"]):
+            for j, p in enumerate(row):
+                want = float(point_dist2(src, p[0], p[1]) if l2 == 0 else seg_dist2(src, dst, p[0], p[1]))
+                v = o[i][j][e]
+                if not (isinstance(v, float) and math.isfinite(v)) or abs(v - want) > 1e-4 + 1e-4 * abs(want):
+                    return [(f"distance_to_edge: edge {e} point {(str(p[0]), str(p[1]))}: {v} is not the squared "
+                             f"distance {want} to the closed segment", SEL_F1 if 0 < l2 < 1 else None)]
+    return []
+
+
 def oracle(c, out, mods):
+    if c["kind"] == "multi":
+        return oracle_multi(c, out, mods)
+    if c["kind"] == "pafs":
+        return oracle_pafs(c, out, mods)
+    if c["kind"] == "edgemaps":
+        return oracle_edge_maps(c, out, mods)
+    if c["kind"] == "dist":
+        return oracle_dist(c, out, mods)
+    dts = (c.get("dtype", "float32"), c.get("edge_dtype", "float32"))
     if c["kind"] == "gen":
         return oracle_field(mods, out, c["insts"], c["n_nodes"], c["H"], c["W"], c["s"], c["sigma"],
-                            c["edges"], c["flat"], False)
+                            c["edges"], c["flat"], False, dts)
     if c["kind"] == "pipe":
         fails = oracle_field(mods, out[0], c["insts"], c["n_nodes"], c["H"], c["W"], c["s"], c["sigma"],
-                             c["edges"], c["flat"], True)
+                             c["edges"], c["flat"], True, dts)
         if "ex2" in c:
             fails += oracle_field(mods, out[1], c["ex2"]["insts"], c["n_nodes"], c["ex2"]["H"], c["ex2"]["W"],
-                                  c["s"], c["sigma"], c["edges"], c["flat"], True)
+                                  c["s"], c["sigma"], c["edges"], c["flat"], True, dts)
         return fails
     return []
 
@@ -541,6 +711,9 @@ def case_json(c):
     j["insts"] = [[jp(p) for p in inst] for inst in c["insts"]]
     if c.get("extra_sample"):
         j["extra_sample"] = True
+    for k in ("dtype", "edge_dtype"):
+        if k in c:
+            j[k] = c[k]
     if "ex2" in c:
         j["ex2"] = {"H": c["ex2"]["H"], "W": c["ex2"]["W"],
                     "insts": [[jp(p) for p in inst] for inst in c["ex2"]["insts"]]}
@@ -560,6 +733,9 @@ def case_from_json(j):
     c["edges"] = [tuple(e) for e in j["edges"]]
     c["insts"] = [[up(p) for p in inst] for inst in j["insts"]]
     c["extra_sample"] = bool(j.get("extra_sample"))
+    for k in ("dtype", "edge_dtype"):
+        if k in j:
+            c[k] = j[k]
     if "ex2" in j:
         c["ex2"] = {"H": j["ex2"]["H"], "W": j["ex2"]["W"],
                     "insts": [[up(p) for p in inst] for inst in j["ex2"]["insts"]]}
@@ -591,6 +767,15 @@ def detect_fixed_box(mods):
     return bool((out != 0).any())
 
 
+def detect_fixed_box_pipe(mods):
+    """The DataPipe carries its own copy of the in-image filter: the F23 witness through the DataPipe."""
+    torch, em = mods
+    c = case_from_json(json.load(open(WITNESS_BOX))["case"])
+    out = impl_pipe(em, torch, [(c["H"], c["W"], [c["insts"]], 1)], c["n_nodes"], c["sigma"], c["s"], c["edges"],
+                    c["flat"])[0]
+    return bool((out != 0).any())
+
+
 # ---------------------------------------------------------------- the check
 def check(run: core.Run) -> int:
     run.build_and_prove(PROP_FILES)
@@ -599,14 +784,16 @@ def check(run: core.Run) -> int:
     n = 8000 if thorough else 500
     fixed_box = detect_fixed_box(mods)
     fixed_len = detect_fixed_len(mods)
+    fixed_box_pipe = detect_fixed_box_pipe(mods)
     run.notes.append(f"variants detected on the implementation by running the corpus witnesses: "
-                     f"fixed_len={fixed_len} (F1), fixed_box={fixed_box} (F23)")
+                     f"fixed_len={fixed_len} (F1), fixed_box={fixed_box} (F23, generate_pafs), "
+                     f"fixed_box_pipe={fixed_box_pipe} (F23, PartAffinityFieldsGenerator)")
     cases = []
     for f in sorted((core.CORPUS / "C05").glob("*.json")):
         cases.append(case_from_json(json.load(open(f))["case"]))
     while len(cases) < n:
         cases.append(gen_case(run.rng, thorough))
-    model = core.coq_eval_sharded(PREAMBLE, [term(c, fixed_len, fixed_box) for c in cases], "run", RENDER,
+    model = core.coq_eval_sharded(PREAMBLE, [term(c, fixed_len, fixed_box, fixed_box_pipe) for c in cases], "run", RENDER,
                                   shard=12, jobs=14)
     disagree, dist, n_oracle = 0, {}, 0
     for c, m in zip(cases, model):
@@ -624,7 +811,14 @@ def check(run: core.Run) -> int:
         if diff:
             disagree += 1
         fails = oracle(c, out, mods)
-        n_oracle += c["kind"] in ("gen", "pipe")
+        n_oracle += c["kind"] != "edgepts"
+        for key in ("dtype", "edge_dtype"):
+            if key in c:
+                dist[f"{key}_{c[key]}"] = dist.get(f"{key}_{c[key]}", 0) + 1
+        if c["sigma"] in SIGMAS_EXTREME:
+            dist["sigma_extreme"] = dist.get("sigma_extreme", 0) + 1
+        if c.get("extra_sample"):
+            dist["extra_sample"] = dist.get("extra_sample", 0) + 1
         for bad, sel in fails:
             run.violation("failing-input", {"case": case_json(c), "oracle": bad, "correspondence": diff},
                           selector=sel)
@@ -642,6 +836,7 @@ def check(run: core.Run) -> int:
                 "and H*W >= 4; distinct by full case content",
         "tolerance": {"atol": ATOL, "rtol": RTOL},
         "fixed_box_detected": fixed_box, "fixed_len_detected": fixed_len,
+        "fixed_box_pipe_detected": fixed_box_pipe,
     })
     for c in cases[:3]:
         run.sample(case_json(c))
